@@ -20,14 +20,15 @@ PROBES = {
             "return_data", "clock_backwards_seen", "initial_window", "gapped_fh",
             "no_leak_checked", "honest_recomputation_checked", "prefitted_forecaster",
             "missing_values_in_training_window", "fit_params_checked",
-            "x_consuming_forecaster", "missing_values_in_test_window"],
+            "x_consuming_forecaster", "missing_values_in_test_window", "raw_metric_checked"],
     "C08": ["tie_in_best_score", "greater_is_better", "nested_param_names", "multiplexer_grid",
             "randomized_search", "refit_false", "interleave_schedule", "pre_dispatch_window",
             "lockstep_history_checked", "sibling_schedule_checked", "list_of_grids",
             "random_state_instance", "tie_not_involving_first", "second_fit_other_grid",
             "fit_horizon_remembered", "prediction_intervals_checked", "undefined_candidate_score",
             "update_predict_single_checked", "update_predict_default_splitter",
-            "all_scores_undefined", "step_refused_by_both"],
+            "all_scores_undefined", "step_refused_by_both", "raw_metric_checked",
+            "refit_switched_off_and_fitted_again"],
 }
 FAULT_KINDS = {
     "C07": ["clock_jump_fwd", "clock_jump_back"],
@@ -116,6 +117,25 @@ def build_metric(name):
     if name == "nan_mae":
         return make_forecasting_scorer(_nan_mae, name="nan_mae", greater_is_better=False)
     raise ValueError(name)
+
+
+def raw_metric(name):
+    """The metric as a plain function of (y_true, y_pred), written from its definition and
+    independent of the repo's scorer objects."""
+    eps = np.finfo(np.float64).eps
+
+    def smape(t, p):
+        return float(np.mean(2.0 * np.abs(t - p) / np.maximum(np.abs(t) + np.abs(p), eps)))
+
+    def mape(t, p):
+        return float(np.mean(np.abs(t - p) / np.maximum(np.abs(t), eps)))
+    table = {None: smape, "smape": smape, "mape": mape,
+             "mse": lambda t, p: float(np.mean((t - p) ** 2)),
+             "rmse": lambda t, p: float(np.sqrt(np.mean((t - p) ** 2))),
+             "asym": _asym, "rel_true": _rel_true, "neg_mae": _neg_mae, "skill": _skill,
+             "corr": _corr, "nan_mae": _nan_mae}
+    f = table[name]
+    return lambda y_true, y_pred: f(np.asarray(y_true, float), np.asarray(y_pred, float))
 
 
 ORDER_SENSITIVE = {"mape", "asym", "rel_true", "skill"}
@@ -244,6 +264,7 @@ def generate(prop, rng, tier):
         "pre_dispatch": rng.choice([None, 1, 2, "2*n_jobs", "n_jobs"]),
         "refit": rng.random() < 0.8,
         "second_fit": rng.random() < 0.3,
+        "toggle_refit": rng.random() < 0.3,
         # horizon given to fit (None, or one that differs from the splitter's)
         "fit_fh": rng.choice([None, None, [1, 2, 5], [2, 3, 4, 6]]),
         "alpha": rng.choice([0.05, 0.2, 0.5]),
@@ -440,6 +461,12 @@ def execute_c07(scen):
                 if np.isclose(got, swapped) else ""), metric=str(scen["metric"]),
                 swapped=bool(np.isclose(got, swapped)))
             return res
+        raw = raw_metric(scen["metric"])(y_test.values, y_pred.values)
+        res.probe("raw_metric_checked")
+        if not np.isclose(got, raw, rtol=1e-9, atol=1e-12, equal_nan=nan_ok):
+            v("wrong_score", "fold %d: table score %.10g, the metric's definition applied to "
+              "(y_true, y_pred) gives %.10g" % (i, got, raw), metric=str(scen["metric"]), raw=True)
+            return res
         if scen["return_data"]:
             for col, exp in (("y_train", y_train), ("y_test", y_test), ("y_pred", y_pred)):
                 if not C.same_series(row[col], exp):
@@ -513,6 +540,29 @@ def _make_tuner(scen, n_jobs, pre_dispatch="same"):
         return ForecastingGridSearchCV(base, cv, scen["grid"], **kw)
     return ForecastingRandomizedSearchCV(base, cv, scen["grid"], n_iter=scen["n_iter"],
                                          random_state=_search_rs(scen), **kw)
+
+
+def _honest_mean(scen, params, y):
+    """Mean over the folds of the metric's definition applied to the forecasts of a clone
+    fitted (strategy refit) or fitted once and updated (strategy update) on each fold."""
+    from sklearn.base import clone
+    raw = raw_metric(scen["metric"])
+    base = clone(C.build(scen["base"])).set_params(**params)
+    scores = []
+    g = None
+    for i, (tr, te) in enumerate(C.build_cv(scen["cv"]).split(y)):
+        y_train, y_test = y.iloc[tr], y.iloc[te]
+        fh = ForecastingHorizonAbs(y_test.index)
+        if i == 0 or scen["strategy"] == "refit":
+            g = clone(base)
+            g.fit(y_train, fh=fh)
+        else:
+            g.update(y_train)
+        scores.append(raw(y_test.values, g.predict(fh).values))
+    # (folds on which the metric is undefined are left out of the mean, as evaluate's table
+    # mean does; the property does not say how they count)
+    sc = np.asarray(scores, float)
+    return float(np.mean(sc[~np.isnan(sc)])) if (~np.isnan(sc)).any() else float("nan")
 
 
 def _all_undefined(scen, y):
@@ -635,6 +685,22 @@ def execute_c08(scen):
               parallel=bool(sc.n_tasks))
             res.digest = "rows"
             return res
+    # ... and the mean over the folds of the metric's own definition (not the repo's scorer
+    # object) applied to honest per-fold forecasts
+    with peers.paused(), sched.scenario_schedule(sched.Scheduler("fifo", 0)):
+        for i, params in enumerate(cands[:4]):
+            try:
+                hm = _honest_mean(scen, params, y)
+            except Exception:
+                continue
+            res.probe("raw_metric_checked")
+            got = float(table.iloc[i][mean_col])
+            if not np.isclose(got, hm, rtol=1e-9, atol=1e-12, equal_nan=True):
+                v("row_differs_from_metric_definition", "candidate %d %s: cv_results_ mean %.10g, the "
+                  "metric's definition applied to honest per-fold forecasts gives %.10g" % (
+                      i, params, got, hm), metric=str(scen["metric"]))
+                res.digest = "rows_raw"
+                return res
     digest.update(repr([round(float(x), 10) for x in table[mean_col]]).encode())
     # ---- best candidate in the metric's declared direction
     means = np.asarray(table[mean_col], dtype=float)
@@ -870,6 +936,32 @@ def execute_c08(scen):
                 op, k, tuner.cutoff, direct.cutoff), op=op)
             break
         digest.update(repr((op, C.digest_obj(a))).encode())
+    # ---- the same tuner switched to refit=False and fitted again: the forecaster of the
+    # earlier fit must not answer any more
+    if scen.get("toggle_refit") and not res.violations:
+        try:
+            with sched.scenario_schedule(sched.Scheduler("fifo", 0)), patched_evaluate_clock(SimClock(5)):
+                tuner.set_params(refit=False)
+                tuner.fit(y)
+            res.probe("refit_switched_off_and_fitted_again")
+            for name, call in (("predict", lambda: tuner.predict([1, 2])),
+                               ("update", lambda: tuner.update(tail.iloc[:2])),
+                               ("update_predict_single", lambda: tuner.update_predict_single(tail.iloc[:2], fh=[1]))):
+                try:
+                    call()
+                    v("no_refit_method_worked", "%s returned a result after set_params(refit=False) "
+                      "and a second fit" % name, method=name, toggled=True)
+                    break
+                except NotFittedError:
+                    pass
+                except Exception as e:  # noqa
+                    v("no_refit_wrong_error", "%s raised %s instead of NotFittedError after "
+                      "set_params(refit=False) and a second fit" % (name, type(e).__name__),
+                      method=name, exc=type(e).__name__, toggled=True)
+                    break
+        except Exception as e:  # noqa
+            v("fit_raised", "fit after set_params(refit=False) raised %s: %s" % (
+                type(e).__name__, str(e)[:150]), exc=type(e).__name__)
     res.digest = digest.hexdigest()[:16]
     res.states.add(short_hash([bi, len(cands), scen["refit"]]))
     return res
